@@ -104,8 +104,11 @@ def run_corr(case):
 def hist_case(draw):
     b = draw(gen.binning_params(max_bins=4))
     edges = gen.binning_edges_reference(b, "Planck15").tolist()
-    K = draw(st.integers(2, 6))
-    n = draw(st.integers(K, 40))
+    # mostly few patches; sometimes hundreds (patch ids are int16: index arithmetic over
+    # patches must not be done in a narrow integer type), around the widths where products
+    # and sums of int8/uint8/int16 indices wrap
+    K = draw(st.one_of(st.integers(2, 6), st.integers(2, 6), st.integers(2, 6), st.integers(2, 6), st.integers(2, 6), st.integers(2, 6), st.sampled_from([127, 128, 129, 181, 182, 183, 200, 255, 256, 257, 300])))
+    n = draw(st.integers(K, K + 34))
     pid = list(range(K)) + draw(st.lists(st.integers(0, K - 1), min_size=n - K, max_size=n - K))
     z = draw(gen.redshift_values(n, edges))
     ra = draw(st.lists(gen.floats(0.1, 0.2), min_size=n, max_size=n))
@@ -125,7 +128,7 @@ def run_hist(case):
     z = np.array(cat["z"], float)
     w = np.ones(len(z)) if cat["w"] is None else np.array(cat["w"], float)
     pid = np.array(case["pid"])
-    ck = Checker(classes=[f"patches:{K}", f"workers:{case['workers']}"])
+    ck = Checker(classes=[f"patches:{K if K < 100 else '>=127'}", f"workers:{case['workers']}"])
     with Scratch() as tmp:
         try:
             cfg = pl.make_config(cfgd)
@@ -151,7 +154,7 @@ def run_hist(case):
             return out
 
         per_patch = np.array([histogram(pid == k) for k in range(K)])
-        ck.nontrivial = K >= 3 and len({tuple(r) for r in per_patch.tolist()}) == K
+        ck.nontrivial = K >= 3 and len({tuple(r) for r in per_patch.tolist()}) >= min(K, 8)
         ck.expect(np.allclose(hist.data, histogram(np.ones(len(z), bool)), rtol=1e-12, atol=0), "hist:data")
         ck.expect(hist.samples.shape == (K, nb), "hist:samples-shape", str(hist.samples.shape))
         if hist.samples.shape == (K, nb):
